@@ -382,9 +382,11 @@ func pkHashFns(h *pkNode) []int {
 // capitalised functions defined in the package body (prefix Zq), also stored
 // in the global registry zqreg so that they can be called without a dot path.
 //
-// pkAcc (a field of the case) adds the accessors that only some cases use:
-// "dot": the code of the package uses its members through dot paths (ZqD/E/G/U/T/I);
-// "recv": functions that receive a value from outside (ZqId, ZqLet, ...).
+// pkAcc (a field of the case) selects the accessors that the events of the case use
+// (defining all of them in every case doubles the cost of building the tree):
+// "": ZqR/W/C/S/O; "r": only the readers ZqR (cases whose inside events are readbacks);
+// "dot": ZqR and the accessors that use the members through dot paths (ZqD/G/S);
+// "recv": only the functions that receive a value from outside (ZqId, ZqLet, ...).
 var pkAcc string
 
 func pkRenderPkg(n, parent *pkNode, strName bool) string {
@@ -437,6 +439,9 @@ func pkRenderPkg(n, parent *pkNode, strName bool) string {
 			}
 			continue
 		}
+		if pkAcc == "r" {
+			continue
+		}
 		if i%2 == 0 {
 			fmt.Fprintf(&sb, " (defn ZqW%d [zqv] (set %s zqv))", i, e.name)
 		} else {
@@ -472,7 +477,7 @@ func pkRenderPkg(n, parent *pkNode, strName bool) string {
 		fmt.Fprintf(&sb, "\n (defn Zq%s %s)", d[0], d[1])
 		reg(d[0])
 	}
-	if m := pkOuterMarker(n, parent); m != "" {
+	if m := pkOuterMarker(n, parent); m != "" && (pkAcc == "" || pkAcc == "dot") {
 		fmt.Fprintf(&sb, "\n (defn ZqO [] %s)", m)
 		reg("O")
 	}
@@ -1458,12 +1463,14 @@ func init() {
 			pkRenumber(root)
 			g := &pkGen{root: root}
 			fill(g)
-			acc := ""
+			acc := "r"
 			for _, ev := range g.evs {
 				if ev.Op == "rel" {
 					acc = "recv"
 				} else if ev.Op == "in" && ev.Form != "" {
 					acc = "dot"
+				} else if ev.Op == "in" && ev.Mode != "rd" && acc == "r" {
+					acc = ""
 				}
 			}
 			pc := &pkCase{ID: id, Mk: mk, Decoy: decoy, Acc: acc, Tree: root.json(), Evs: g.evs, root: root}
